@@ -1,6 +1,7 @@
 package main
 
 import (
+	"go/types"
 	"go/token"
 	"strings"
 
@@ -215,7 +216,38 @@ func runC06(w *World, r *Report) {
 					}
 				}
 			}
-			r.Check(okShared, "R3", "enqueueIfSlotAvailable/shared-guard", posOf(add[0]), "a bounded shared queue (maxRedisQueueSize > -1) refuses when maxRedisQueueSize <= Size()")
+			// ... and no path on which the shared queue is bounded and full reaches the registration
+			fullReaches := false
+			nFull := 0
+			for _, b := range es.Blocks {
+				rl := Rels(b)
+				a, _ := FindRel(rl, pathRe(`^param:p\.maxRedisQueueSize$`), func(v ssa.Value) bool { return isCallTo0(v, "SharedQueueI).Size") })
+				bnd, _ := FindRel(rl, pathRe(`^param:p\.maxRedisQueueSize$`), func(v ssa.Value) bool { return isIntConst(v, -1) })
+				if a == "<=" && bnd == ">" {
+					nFull++
+					if canReach(b, add[0].Block()) {
+						fullReaches = true
+					}
+				}
+			}
+			okShared = okShared && nFull > 0 && !fullReaches
+			r.Check(okShared, "R3", "enqueueIfSlotAvailable/shared-guard", posOf(add[0]), "a bounded shared queue (maxRedisQueueSize > -1) refuses when maxRedisQueueSize <= Size(), and no block where that holds reaches AddRequest")
+			// `true` means: registered with the watcher and placed in the heap
+			okTrue := true
+			for _, alt := range ReturnAlts(es, 0) {
+				b, isC := constBool(alt.Val)
+				if !isC {
+					okTrue = false
+					continue
+				}
+				if b {
+					op, _ := FindRel(relsOfConds(alt.Conds), func(v ssa.Value) bool { return v == hq[0].Value() }, isNilConst)
+					if !domInstr(add[0], alt.Ret) || !domInstr(hq[0], alt.Ret) || op != "==" {
+						okTrue = false
+					}
+				}
+			}
+			r.Check(okTrue, "R3", "enqueueIfSlotAvailable/true-only-when-enqueued", es.Pos(), "the function reports success only after AddRequest and a successful Enqueue (a request told to wait is always watched for its TTL)")
 			r.Check(domInstr(add[0], hq[0]) && margs(hq[0])[0] != nil && strings.HasSuffix(Path(margs(hq[0])[0]), "GetID(param:req)") && Path(add[0].Common().Args[1]) == "param:req", "R3", "enqueueIfSlotAvailable/register-then-enqueue", posOf(hq[0]), "the request is registered with the watcher before its id enters the heap")
 			// atomicity of check and increment
 			atomic := false
@@ -440,10 +472,12 @@ func runC06(w *World, r *Report) {
 	r.Min("R1", 7)
 	r.Min("R2", 4)
 	r.Min("R3", 4)
-	r.Min("R4", 8)
+	checkHeapContract(w, r, "R4", pkgLctx, "PriorityQueue")
+	r.Min("R4", 12)
 	r.Min("R5", 1)
 	r.Min("R6", 2)
 	c06NextExpiry(w, r)
+	c06RequestStateMachine(w, r)
 	r.Min("R7", 11)
 	r.Min("R8", 6)
 }
@@ -512,4 +546,79 @@ func c06NextExpiry(w *World, r *Report) {
 	}
 	r.Check(okInit && okMin && nEntry == 1, "R7", "recalculateNextExpireAt/minimum-over-all-entries", phi.Pos(),
 		"next wake-up = min(now+defaultTTL, every watched expiry): starts at now+defaultTTL=%v, replaced by an entry exactly when the entry is earlier (extra conditions %v)", okInit, extra)
+}
+
+// c06RequestStateMachine: the per-request state machine that licenses the
+// single verdict: each transition stores the reviewed state/result pair before
+// signalling, and signalling is exactly one WaitGroup.Done.
+func c06RequestStateMachine(w *World, r *Report) {
+	if ss := w.Fn(pkgQProc, "Request.setSignal"); ss == nil {
+		r.Undec("R1", "Request.setSignal", token.NoPos, "function not found")
+	} else {
+		d := CallsIn(ss, false, "sync.WaitGroup).Done")
+		r.Check(len(d) == 1 && len(CondsOf(d[0].Block())) == 0 && strings.HasSuffix(Path(d[0].Common().Args[0]), "r.waitGroup"), "R1", "setSignal/releases-the-waiter-once", ss.Pos(), "setSignal is one unconditional waitGroup.Done on the request's own wait group")
+	}
+	constName := func(v ssa.Value) string {
+		for _, n := range []string{"requestEnqueued", "requestProcessing", "requestProcessed", "requestSuccess", "requestTimeout"} {
+			if c := w.constOf(pkgQProc, n); c != nil && isConstVal(v, c) {
+				// state and result enumerations may share numeric values: disambiguate by type
+				if k, ok := peel(v).(*ssa.Const); ok {
+					if obj := w.ByPath[pkgQProc].Types.Scope().Lookup(n); obj != nil && types.Identical(obj.Type(), k.Type()) {
+						return n
+					}
+				}
+			}
+		}
+		return "?"
+	}
+	for _, tr := range []struct {
+		fn            string
+		state, result string
+		signals       bool
+	}{
+		{"StopProcessing", "requestEnqueued", "", false},
+		{"SetProcessedSuccess", "requestProcessed", "requestSuccess", true},
+		{"SetProcessedTimeout", "requestProcessed", "requestTimeout", true},
+	} {
+		f := w.Fn(pkgQProc, "Request."+tr.fn)
+		if f == nil {
+			r.Undec("R1", "Request."+tr.fn, token.NoPos, "function not found")
+			continue
+		}
+		st, rs := fieldStores(f, "state"), fieldStores(f, "result")
+		sig := CallsIn(f, false, "Request).setSignal")
+		ok := len(st) == 1 && constName(st[0].Val) == tr.state && len(CondsOf(st[0].Block())) == 0
+		if tr.result != "" {
+			ok = ok && len(rs) == 1 && constName(rs[0].Val) == tr.result && len(CondsOf(rs[0].Block())) == 0
+		} else {
+			ok = ok && len(rs) == 0
+		}
+		if tr.signals {
+			ok = ok && len(sig) == 1 && len(CondsOf(sig[0].Block())) == 0 && domInstr(st[0], sig[0]) && (len(rs) == 0 || domInstr(rs[0], sig[0]))
+		} else {
+			ok = ok && len(sig) == 0
+		}
+		r.Check(ok, "R1", "transition/"+tr.fn, f.Pos(), "%s stores state=%s result=%s unconditionally%s", tr.fn, tr.state, tr.result, map[bool]string{true: " and then signals once", false: " and does not signal"}[tr.signals])
+	}
+	// the shared heap drops exactly the entry of the given request id
+	if rm := w.Fn(pkgLctx, "memoryQueue.Remove"); rm == nil {
+		r.Undec("R6", "memoryQueue.Remove", token.NoPos, "function not found")
+	} else {
+		hr := CallsIn(rm, false, "container/heap.Remove")
+		ok := len(hr) == 1
+		if ok {
+			idx := hr[0].Common().Args[1]
+			op, rel := FindRel(Rels(hr[0].Block()), func(v ssa.Value) bool { return strings.HasSuffix(Path(v), ".value") }, pathRe(`^param:item$`))
+			ok = op == "==" && rel != nil
+			if ok {
+				// the compared element is the one at the removed index
+				l := rel.L
+				if Path(l) == "param:item" {
+					l = rel.R
+				}
+				ok = Derives(l, func(x ssa.Value) bool { return x == idx }) || strings.Contains(Path(l), Path(idx))
+			}
+		}
+		r.Check(ok, "R6", "memoryQueue.Remove/removes-the-entry-of-that-id", rm.Pos(), "heap.Remove(i) executes only where queue[i].value == item")
+	}
 }
